@@ -248,6 +248,13 @@ func c17PostCutover(t metadb.ChannelMigrationTask) bool {
 	return false
 }
 
+// c17EmbeddedWindowRow: replica replacement whose embedded leader transfer is
+// committed (VerifyNewLeader) and whose fence has not been cleared yet.
+func c17EmbeddedWindowRow(t metadb.ChannelMigrationTask) bool {
+	return t.Kind == metadb.ChannelMigrationKindReplicaReplace && t.EmbeddedLeaderTransfer &&
+		t.Phase == metadb.ChannelMigrationPhaseVerifyNewLeader && t.Status != metadb.ChannelMigrationStatusCompleted
+}
+
 // c17ProofMismatch lists the proof fields of the stored task proof that differ
 // from the runtime meta (the four fields named by the property).
 func c17ProofMismatch(t metadb.ChannelMigrationTask, m metadb.ChannelRuntimeMeta) []string {
